@@ -57,13 +57,16 @@ class C07(SessimProp):
         n = len(self.sites)
         key, imports, expr = self.sites[index % n]
         if tier == "quick":
-            # five placements per site: inside a function (a fresh frame with an empty value stack, where a
-            # value that is not pushed back is missed at once) and four more drawn from the seed
+            # five placements per site: inside a function, at the toplevel (the two kinds of frame differ in
+            # what else lies on their value stacks, i.e. in how soon a value that is not pushed back is missed)
+            # and three more drawn from the seed
             j = index // n
             if j == 0:
                 placement = "fun1"
+            elif j == 1:
+                placement = "toplevel"
             else:
-                placement = rng.choice([p for p in sites.PLACEMENTS if p != "fun1"])
+                placement = rng.choice([p for p in sites.PLACEMENTS if p not in ("fun1", "toplevel")])
         else:
             placement = sites.PLACEMENTS[(index // n) % len(sites.PLACEMENTS)]
         return {"site": key, "imports": imports, "expr": expr, "placement": placement}
